@@ -27,6 +27,8 @@ EXTENDS Mapping2D
 CONSTANTS MaxEntries,   \* longest entry list
           Classes,      \* Leontis-Westhof classes used by the entries
           WithAbsent,   \* entries may name a residue that is not in the structure
+          Oriented,     \* TRUE: only entries naming the lower file index first (smaller domain)
+          Ords,         \* subset of BOOLEAN: TRUE = identifiers in file order, FALSE = against it
           RowPolicy,    \* "two_rows" | "until_placed"
           Resolve       \* "as_code" | "any"
 
@@ -46,10 +48,11 @@ Res == LET o == IF ord THEN <<1, 2, 3, 4, 5>> ELSE <<2, 3, 4, 5, 1>> IN
 NucIdx == DemoNuc
 Ends   == NucIdx \cup (IF WithAbsent THEN {0} ELSE {})
 EntryDomain == { [a |-> x, b |-> y, lw |-> l, sa |-> ""] :
-                   x \in Ends, y \in Ends, l \in Classes } \ { e \in [a : NucIdx, b : NucIdx, lw : Classes, sa : {""}] : e.a = e.b }
+                   x \in Ends, y \in Ends, l \in Classes }
+               \ { e \in [a : NucIdx, b : NucIdx, lw : Classes, sa : {""}] : e.a = e.b \/ (Oriented /\ e.a > e.b) }
 
 Init == /\ entries \in UNION { [1..n -> EntryDomain] : n \in 0..MaxEntries }
-        /\ gaps \in BOOLEAN /\ ord \in BOOLEAN
+        /\ gaps \in BOOLEAN /\ ord \in Ords
         /\ pc = "lift" /\ k = 1 /\ lifted = <<>> /\ canon = <<>>
         /\ seq = <<>> /\ ridx = <<>> /\ prev = 0 /\ partner = <<>>
         /\ strands = <<>> /\ pieces = <<>> /\ rowsets = <<>> /\ rows = <<>>
